@@ -415,7 +415,7 @@ def main():
         except Exception as e:  # the implementation crashed on a legal history
             impls.append({"crash": f"{type(e).__name__}: {e}"})
     exprs = [model_expr(c) for c in cases]
-    vals = common.coq_eval_many("C01", HEADER, exprs, shard=100, procs=8)
+    vals = common.coq_eval_many("C01", HEADER, exprs, shard=200, procs=4)
     hist = {"backend": {}, "obs_kind": {}, "n_envs": {}, "ops": 0, "steps": 0, "autoresets": 0, "both_flags_steps": 0, "len1_episodes": 0}
     distinct = set()
     for c, im, v in zip(cases, impls, vals):
